@@ -919,6 +919,18 @@ func c05API(c *Ctx, r *Report) {
 			nuses++
 			file := fileOf(u.id.Pos())
 			where := enclosingName(p, file, u.id.Pos())
+			// a renamed anchor keeps the name the table knows it by
+			if fd := enclosingFunc(file, u.id.Pos()); fd != nil {
+				if fobj, _ := p.TypesInfo.Defs[fd.Name].(*types.Func); fobj != nil {
+					if fn := c.Prog.FuncValue(fobj); fn != nil {
+						if old := aliasedBase(fn); old != "" {
+							if i := strings.LastIndex(where, "."); i >= 0 {
+								where = where[:i+1] + old
+							}
+						}
+					}
+				}
+			}
 			on := objName(obj)
 			if reason, ok := apiAllowed[where][on]; ok {
 				usedAllow[where+"|"+on] = true
